@@ -282,7 +282,10 @@ Definition link (fx : fixes) (lv : level) (r : role) (s : suite) (h : hello)
      not own
    5 messages dispatched although the handshake was refused, or (accepting side)
      although the declared identity differs from the proven key
-   6 the honest node crashed *)
+   6 the honest node crashed or hung (neither served nor dropped the peer)
+   7 handshake accepted although the certificate carrying the proof is outside
+     its validity period (expired / not yet valid): the quantifier lists these
+     among the deviations under which no link may come up *)
 
 Definition holds_b (holds : list key) (k : key) : bool := existsb (Nat.eqb k) holds.
 
@@ -296,6 +299,12 @@ Definition fresh_proof_b (s : suite) (h : hello) : bool :=
       | Some k, Some (SigBy k' n over _) => (k' =? k) && (n =? 0) && cname_eqb over (c_cn c)
       | _, _ => false
       end
+  | None => false
+  end.
+
+Definition valid_now_b (h : hello) : bool :=
+  match leaf h with
+  | Some c => (c_nb c <=? 0)%Z && (0 <=? c_na c)%Z
   | None => false
   end.
 
@@ -318,4 +327,5 @@ Definition prop_check (lv : level) (r : role) (s : suite) (holds : list key) (h 
                                      | None => false
                                      end
                         end)) ++
-  clause_if 6 (negb o_crash).
+  clause_if 6 (negb o_crash) ++
+  clause_if 7 (negb o_hs || valid_now_b h).
